@@ -31,6 +31,25 @@ Proof.
 Qed.
 Print Assumptions C01_solvency.
 
+(* "No request is ever answered with payouts the contract cannot fund": in every state reached by a clean history,
+   whatever the next accepted request is, what its response pays out in a denomination is covered by what the contract
+   holds in it according to the ledger of the history so far (escrowed minus paid) plus what this very request brings
+   in; and the ledger itself is never overdrawn. *)
+Theorem C01_payouts_are_funded : forall e m st0 r0 evs e' sender funds msg st' r d,
+  env_version_ok e -> instantiate e empty_state m = Ok (st0, r0) -> clean_run st0 evs -> never_self evs ->
+  clean_exec (run st0 evs) msg -> sender <> e_self e' ->
+  execute FX e' (run st0 evs) sender funds msg = Ok (st', r) ->
+  snd (ledger st0 evs d) <= fst (ledger st0 evs d) /\
+  outflow e' d (r_msgs r) <=
+    (fst (ledger st0 evs d) - snd (ledger st0 evs d)) + funds_in d funds + inflow e' d (r_msgs r).
+Proof.
+  intros e m st0 r0 evs e' sender funds msg st' r d He Hi Hc Hn Hce Hs Hx.
+  pose proof (C01_solvency e m st0 r0 evs d He Hi Hc Hn) as Hsol.
+  pose proof (C01_step e' (run st0 evs) sender funds msg st' r (Inv_reachable e m st0 r0 evs He Hi Hc) Hce Hs Hx d) as Hst.
+  lia.
+Qed.
+Print Assumptions C01_payouts_are_funded.
+
 (* ... and the same over histories that interleave execute requests with migrations of the contract (a migration of a
    reachable state leaves the book untouched, moves nothing and re-establishes the invariant) *)
 Theorem C01_solvency_with_migrations : forall e m st0 r0 hs d,
